@@ -324,7 +324,7 @@ static void scen_input(char kind, const uint8_t* in, size_t n) {
 }
 
 static void fault_setup(void) {
-  if (strcmp(O.prop, "C06")) vh_die("driver fault: --prop must be C06");
+  if (strcmp(O.prop, "C06") && strcmp(O.prop, "C02")) vh_die("driver fault: --prop must be C06 (or C02 for the load-only stage)");
   LIM = (size_t)O.L;
   ref_selftest();
   ta_install();
@@ -372,6 +372,27 @@ static void fault_run_all(void) {
         struct rverdict z = ref_decode(b, len, LIM, RM_LAZY, false, NULL);
         if (z.code == RC_ACCEPT && z.read == len) { scen_input('C', b, len); scen_input('S', b, len); }
       }
+  } else if (!strcmp(st, "load")) {
+    /* C02's "no allocation refused" clause from the other side: with any single request refused, or all from some point
+     * on, cbor_load of a well-formed item must not succeed, must not crash, and must leave nothing behind */
+    uint64_t nsys = gen_systematic_count();
+    uint64_t nrand = O.budget ? O.budget : (O.thorough ? 20000 : 2000);
+    struct vh_buf x = {0};
+    for (uint64_t u = 0; u < nsys + nrand; u++) {
+      if (u < nsys && (u % 3) != 0 && !O.thorough) continue;
+      if (!MINE()) continue;
+      struct vh_rng r;
+      vh_rng_seed(&r, O.seed * 0x2002 + u);
+      struct gen_cfg cfg = {.max_nodes = 3 + (int)(u % 19), .max_depth = 6, .nonminimal = true, .assigned_simple_only = true};
+      rnode* t = u < nsys ? gen_systematic(u) : gen_tree(&r, &cfg);
+      if (!t) continue;
+      vb_reset(&x);
+      ref_encode_src(t, &x);
+      rn_free(t);
+      if (x.n > 3000) continue;
+      scen_input('L', x.p, x.n);
+    }
+    vb_free(&x);
   } else if (!strcmp(st, "corpus")) {
     uint64_t nsys = gen_systematic_count();
     uint64_t nrand = O.budget ? O.budget : (O.thorough ? 40000 : 2000);
